@@ -35,7 +35,11 @@ struct Case {
     deep: bool,
     dashed: bool,
     lang: Lang,
+    /// what kind of item the referenced target is (each kind is kept in a list of its own on the way to the imports)
+    target_kind: &'static str,
 }
+
+const TARGET_KINDS: [&str; 4] = ["struct", "tagged-enum", "alias", "newtype"];
 
 fn same_crate(form: &str) -> bool {
     matches!(form, "use-crate" | "use-super" | "use-self")
@@ -46,7 +50,13 @@ fn workspace(c: &Case) -> Vec<(String, String)> {
     let target_crate_dir = if c.dashed { "target-crate" } else { "targetcrate" };
     let tc = target_crate_dir.replace('-', "_");
     let rename = if c.renamed { "#[serde(rename = \"TargetRenamed\")]\n" } else { "" };
-    let target_def = format!("#[typeshare]\n{rename}pub struct Target {{ pub t: u32 }}\n\n#[typeshare]\npub struct Sibling {{ pub s: String }}\n");
+    let target_item = match c.target_kind {
+        "tagged-enum" => format!("#[typeshare]\n{rename}#[serde(tag = \"type\", content = \"content\")]\npub enum Target {{ One(u32), Two {{ t: u32 }}, Three }}\n"),
+        "alias" => format!("#[typeshare]\n{rename}pub type Target = Vec<u32>;\n"),
+        "newtype" => format!("#[typeshare]\n{rename}pub struct Target(String);\n"),
+        _ => format!("#[typeshare]\n{rename}pub struct Target {{ pub t: u32 }}\n"),
+    };
+    let target_def = format!("{target_item}\n#[typeshare]\npub struct Sibling {{ pub s: String }}\n");
     let (use_line, ty) = match c.form {
         "use-single" => (format!("use {tc}::Target;\n"), "Target".to_string()),
         "use-group" => (format!("use {tc}::{{Target, Sibling}};\n"), "Target".to_string()),
@@ -187,7 +197,7 @@ fn run_case(c: &Case) -> Obs {
 fn judge(c: &Case, o: &Obs, vios: &mut Vec<Violation>) -> (u64, String) {
     let mut judgements = 0;
     let lang = c.lang;
-    let shape = format!("form={}|renamed={}|mapped={}|homonym={}|pos={}", c.form, c.renamed as u8, c.mapped as u8, c.homonym as u8 + c.homonym_renamed as u8, c.position);
+    let shape = format!("form={}|renamed={}|mapped={}|homonym={}|pos={}{}", c.form, c.renamed as u8, c.mapped as u8, c.homonym as u8 + c.homonym_renamed as u8, c.position, if c.target_kind == "struct" { String::new() } else { format!("|target={}", c.target_kind) });
     let ws = workspace(c);
     let detail = |what: &str| json!({"case": format!("{c:?}"), "argv": o.argv, "workspace": ws.iter().map(|(p, s)| json!({"path": p, "source": s})).collect::<Vec<_>>(), "config": config(c), "generated_files": o.files, "stderr": o.stderr, "observation": what});
     if o.class != "ok" {
@@ -581,9 +591,15 @@ pub fn run(args: &[String]) -> i32 {
                                 if !thorough && ((deep && position != "field") || (mapped && renamed)) {
                                     continue;
                                 }
-                                cases.push(Case { form, renamed, mapped, homonym, homonym_renamed: false, position, deep, dashed: deep || renamed, lang });
+                                cases.push(Case { form, renamed, mapped, homonym, homonym_renamed: false, position, deep, dashed: deep || renamed, lang, target_kind: "struct" });
                                 if homonym && !mapped && !deep && position == "field" {
-                                    cases.push(Case { form, renamed, mapped, homonym, homonym_renamed: true, position, deep, dashed: renamed, lang });
+                                    cases.push(Case { form, renamed, mapped, homonym, homonym_renamed: true, position, deep, dashed: renamed, lang, target_kind: "struct" });
+                                }
+                                // the other kinds of target for the plain reference forms (thorough: every form)
+                                if !mapped && !homonym && !deep && position == "field" && (thorough || ["use-single", "use-group", "use-glob", "qualified-path", "use-crate"].contains(&form)) {
+                                    for kind in &TARGET_KINDS[1..] {
+                                        cases.push(Case { form, renamed, mapped, homonym, homonym_renamed: false, position, deep, dashed: renamed, lang, target_kind: kind });
+                                    }
                                 }
                             }
                         }
@@ -617,7 +633,7 @@ pub fn run(args: &[String]) -> i32 {
     rep.cov("traces_validated_against_impl", json!(cases.len() * 2));
     rep.cov("distinct_nontrivial", json!(nontrivial));
     rep.cov("distinct_outcomes", json!(outcomes.len()));
-    rep.cov("bounds", json!({"reference_forms": FORMS, "target_renamed": [false, true], "target_type_mapped": [false, true], "same_named_type_in_third_crate": ["no", "yes", "yes, serde-renamed (plus a fourth crate with another renamed homonym)"], "positions": POSITIONS, "file_depth": ["src/lib.rs", "src/a/b.rs (and dashed crate name)"], "languages": 6, "crates": "2-3 (reference forms), 1-5 (topologies)"}));
+    rep.cov("bounds", json!({"reference_forms": FORMS, "target_renamed": [false, true], "target_kinds": TARGET_KINDS, "target_type_mapped": [false, true], "same_named_type_in_third_crate": ["no", "yes", "yes, serde-renamed (plus a fourth crate with another renamed homonym)"], "positions": POSITIONS, "file_depth": ["src/lib.rs", "src/a/b.rs (and dashed crate name)"], "languages": 6, "crates": "2-3 (reference forms), 1-5 (topologies)"}));
     topology_family(&mut rep);
     rep.cov("exhaustive", json!(true));
     rep.cov("rule", json!("full product of reference form × serde(rename) on the target × type mapping of the target × same-named type in a third crate × reference position × file depth/dashed crate name × language, each workspace generated with -d and with -o by the real binary: file set and names per crate, each definition in its crate's file, definitions equal to single-file mode, and (TypeScript, Kotlin) every cross-file reference imported from the defining module and no import of a name its module does not define. non-trivial = the reference crosses a crate boundary."));
